@@ -17,10 +17,12 @@ func checkC14(p *Prog, r *Report) {
 	c14Kinds(p, r)
 	c14Shadow(p, r)
 	c14ArgOrder(p, r)
+	c14OverrideArms(p, r)
+	c14Transfers(p, r)
 }
 
 func c14Order(p *Prog, r *Report) {
-	r.Rule("C14.R1", "overlay order: the run's configuration starts from the documented defaults (a fresh NewDefaultConfig value on every call, from no other source), is overlaid by the project's configuration file, then by the batch-line override — on the same variable — and only then read", 5)
+	r.Rule("C14.R1", "overlay order: the run's configuration starts from the documented defaults (a fresh NewDefaultConfig value on every call, from no other source), is overlaid by the project's configuration file, then by the batch-line override — on the same variable — and only then read", 12)
 	fi := p.Funcs["hermes.readConfig"]
 	x := walked(p, "hermes.readConfig")
 	if fi == nil || x == nil {
@@ -132,7 +134,44 @@ func c14Order(p *Prog, r *Report) {
 			det += "; the bytes are not read from the project's configuration path"
 		}
 	}
+	if unmarshal != nil {
+		// the file is overlaid exactly when it exists: the only condition on the overlay is err == nil of os.Stat(config path)
+		conds, _ := astPathConds(info, fi.Decl.Body, unmarshal.Call)
+		okG := len(conds) == 1
+		for _, c := range conds {
+			good := false
+			if be, ok := stripParens(c.E).(*ast.BinaryExpr); ok && ((be.Op == token.EQL && !c.Neg) || (be.Op == token.NEQ && c.Neg)) {
+				if eo := useObj(info, be.X); eo != nil && types.ExprString(stripParens(be.Y)) == "nil" {
+					for _, d := range defsOf(info, fi.Decl.Body, eo) {
+						if call, ok := stripParens(d.Rhs).(*ast.CallExpr); ok && d.Idx == 1 {
+							if f := callee(info, call); f != nil && f.FullName() == "os.Stat" && len(call.Args) == 1 && strings.HasSuffix(types.ExprString(call.Args[0]), ".config") {
+								good = true
+							}
+						}
+					}
+				}
+			}
+			if !good {
+				okG = false
+			}
+		}
+		if !okG {
+			okU = false
+			det += "; the overlay is conditional on [" + joinConds(conds) + "] instead of exactly 'the configuration file exists'"
+		}
+	}
 	r.Ob("file-overlay", p.Pos(fi.Decl.Pos()), okU, det)
+	// a failed overlay aborts the run: the error of the file decode and of the batch-line overlay each lead to a fatal exit
+	for _, c := range []struct {
+		name string
+		ev   *Event
+	}{{"file decode", unmarshal}, {"batch-line overlay", override}} {
+		if c.ev == nil {
+			continue
+		}
+		okE, why := errorLeadsToExit(info, fi.Decl.Body, c.ev.Call)
+		r.Ob("error-exit:"+c.name, p.Pos(c.ev.Pos), okE, fmt.Sprintf("the error of the %s ends the run: %v %s (an ignored error leaves the key at the lower layer's value without notice; an inverted test ends every run)", c.name, okE, why))
+	}
 	// override unconditional
 	r.Ob("override-unconditional", p.Pos(override.Pos), len(flattenGuards(override.Guards)) == 0 && len(override.Loops) == 0, "the batch-line overlay runs unconditionally: guards ["+guardKeys(override.Guards)+"]")
 	// every read of a config field happens after the override
@@ -156,14 +195,14 @@ func c14Order(p *Prog, r *Report) {
 	r.Ob("reads-after-override", p.Pos(override.Pos), early == 0, fmt.Sprintf("%d reads of configuration fields before the batch-line overlay %s", early, where))
 	// the effective value of a key is the overlaid one: after the overlay the reader may only fill the documented
 	// empty-entry fallbacks, never transform a configured value
-	fallbacks := map[string]string{"WeatherFolder": "empty → default folder", "WeatherRootFolder": "empty → project root resolution", "ResultFileExt": "empty → extension of the result format"}
 	var rewritten []string
+	nFallback := 0
 	ast.Inspect(fi.Decl.Body, func(n ast.Node) bool {
 		as, ok := n.(*ast.AssignStmt)
-		if !ok {
+		if !ok || len(as.Lhs) != len(as.Rhs) {
 			return true
 		}
-		for _, l := range as.Lhs {
+		for i, l := range as.Lhs {
 			se, ok := l.(*ast.SelectorExpr)
 			if !ok {
 				continue
@@ -172,13 +211,42 @@ func c14Order(p *Prog, r *Report) {
 			if !ok || info.Uses[id] != cfg {
 				continue
 			}
-			if _, isFallback := fallbacks[se.Sel.Name]; !isFallback {
-				rewritten = append(rewritten, se.Sel.Name+" at "+p.Pos(as.Pos()))
+			// accepted: (a) the entry is empty (nothing was configured), or (b) the new value is computed from the configured one
+			empty := false
+			conds, _ := astPathConds(info, fi.Decl.Body, as)
+			for _, c := range conds {
+				if be, ok := stripParens(c.E).(*ast.BinaryExpr); ok && !c.Neg && be.Op == token.EQL {
+					x, y := stripParens(be.X), stripParens(be.Y)
+					if call, ok := x.(*ast.CallExpr); ok && len(call.Args) == 1 && types.ExprString(call.Fun) == "len" {
+						if fs, ok := stripParens(call.Args[0]).(*ast.SelectorExpr); ok && useObj(info, fs.X) == cfg && fs.Sel.Name == se.Sel.Name {
+							if tv, ok := info.Types[y]; ok && tv.Value != nil && tv.Value.String() == "0" {
+								empty = true
+							}
+						}
+					}
+					if fs, ok := x.(*ast.SelectorExpr); ok && useObj(info, fs.X) == cfg && fs.Sel.Name == se.Sel.Name {
+						if tv, ok := info.Types[y]; ok && tv.Value != nil && tv.Value.String() == `""` {
+							empty = true
+						}
+					}
+				}
+			}
+			derived := false
+			ast.Inspect(as.Rhs[i], func(m ast.Node) bool {
+				if fs, ok := m.(*ast.SelectorExpr); ok && useObj(info, fs.X) == cfg && fs.Sel.Name == se.Sel.Name {
+					derived = true
+				}
+				return true
+			})
+			if empty || derived {
+				nFallback++
+			} else {
+				rewritten = append(rewritten, se.Sel.Name+" at "+p.Pos(as.Pos())+" under ["+joinConds(conds)+"]")
 			}
 		}
 		return true
 	})
-	r.Ob("no-config-rewrite", p.Pos(override.Pos), len(rewritten) == 0, fmt.Sprintf("configuration fields assigned by the reader itself besides the listed empty-entry fallbacks (%d listed): %s — a value rewritten here is no longer the one the batch line or the file gave", len(fallbacks), orStr(strings.Join(rewritten, "; "), "none")))
+	r.Ob("no-config-rewrite", p.Pos(override.Pos), len(rewritten) == 0, fmt.Sprintf("configuration fields assigned by the reader itself other than under 'the entry is empty' or as a function of the configured value (%d such fallbacks/normalisations): %s — a value rewritten here is no longer the one the batch line or the file gave", nFallback, orStr(strings.Join(rewritten, "; "), "none")))
 	// the returned value is the variable
 	ret := false
 	for _, e := range x.Events {
@@ -219,9 +287,11 @@ func c14Kinds(p *Prog, r *Report) {
 			if !ok || be.Op != token.EQL {
 				return true
 			}
-			if se, ok := be.Y.(*ast.SelectorExpr); ok {
-				if id, ok := se.X.(*ast.Ident); ok && id.Name == "reflect" {
-					handled[se.Sel.Name] = true
+			for _, side := range []ast.Expr{be.X, be.Y} {
+				if se, ok := stripParens(side).(*ast.SelectorExpr); ok {
+					if c, ok := co.Pkg.TypesInfo.Uses[se.Sel].(*types.Const); ok && c.Pkg() != nil && c.Pkg().Path() == "reflect" {
+						handled[se.Sel.Name] = true
+					}
 				}
 			}
 			return true
@@ -474,4 +544,37 @@ func c14ArgOrder(p *Prog, r *Report) {
 			return true
 		})
 	}
+}
+
+// errorLeadsToExit: the call's error result is assigned to a variable and the
+// next statement is `if err != nil { …exit }`.
+func errorLeadsToExit(info *types.Info, body *ast.BlockStmt, call *ast.CallExpr) (bool, string) {
+	path := nodePath(body, call)
+	for i := len(path) - 1; i > 0; i-- {
+		as, ok := path[i].(*ast.AssignStmt)
+		if !ok {
+			continue
+		}
+		errObj := useObj(info, as.Lhs[len(as.Lhs)-1])
+		blk, ok := path[i-1].(*ast.BlockStmt)
+		if !ok || errObj == nil {
+			return false, "(result not bound in a statement list)"
+		}
+		for k, st := range blk.List {
+			if st == ast.Stmt(as) {
+				if k+1 >= len(blk.List) {
+					return false, "(nothing follows the call)"
+				}
+				is, ok := blk.List[k+1].(*ast.IfStmt)
+				if !ok || !isNilCmp(info, is.Cond, errObj, token.NEQ) {
+					return false, "(the statement after the call is not `if err != nil`)"
+				}
+				if !terminates(info, is.Body) {
+					return false, "(the error branch does not end the run)"
+				}
+				return true, ""
+			}
+		}
+	}
+	return false, "(error result discarded)"
 }
